@@ -22,6 +22,11 @@ Value model (kept where equality is unambiguous):
   bytes      2 bytes                      bytes           its hex digits, either case ("12AB", "12ab")
   f32        IEEE-754 single, big endian  float           a decimal numeral of the same number ("1.5", "1.50")
   dtc        2 bytes big endian, DTC-DOP  trouble code    "0x" + hex digits of the code, either case
+  lstr       length byte + ISO-8859-1     str (may be "") the same string (EXPECTED-VALUE may be empty)
+  lbytes     length byte + bytes          bytes (may be b"") its hex digits (EXPECTED-VALUE may be empty)
+
+Every numeric alphabet contains the falsy value (0, 0.0) and the variable-length types the
+empty value, so that "value is falsy" and "parameter is absent" can be told apart.
 
 The name of a leaf fixes its type (NAME_TYPE), so the type of the value at a
 path is the same in every layout in which the path resolves.
@@ -34,7 +39,9 @@ import struct
 # ---------------------------------------------------------------------------
 # vocabulary
 # ---------------------------------------------------------------------------
-LEAF_SIZE = {"u8": 1, "u16": 2, "str": 2, "bytes": 2, "f32": 4, "dtc": 2}
+LEAF_SIZE = {"u8": 1, "u16": 2, "str": 2, "bytes": 2, "f32": 4, "dtc": 2, "lstr": None, "lbytes": None}
+# "lstr" / "lbytes": LEADING-LENGTH-INFO-TYPE (8 bit byte count, then the content); they make the empty
+# string and the empty byte field (falsy decoded values) expressible.  Not allowed inside field items.
 NAME_TYPE = {
     "id": "u8", "ver": "u8", "nrc": "u8", "gnrc": "u8", "rsid": "u8",
     "num": "u16",
@@ -42,27 +49,33 @@ NAME_TYPE = {
     "raw": "bytes",
     "val": "f32",
     "dtc": "dtc",
+    "txt": "lstr",
+    "blob": "lbytes",
 }
 STRUCT_NAMES = ["info", "blk", "sub"]
 FIELD_NAMES = ["items", "arr", "lst", "tail"]
 
 VALUES = {
-    "u8": [5, 34, 200],
-    "u16": [5, 34, 4660],
+    "u8": [5, 34, 200, 0],
+    "u16": [5, 34, 4660, 0],
     "str": ["AB", "CD", "ab"],
     "bytes": [b"\x12\xab", b"\x00\xff", b"\x34\x00"],
-    "f32": [0.5, 1.5, -2.0],
+    "f32": [0.5, 1.5, -2.0, 0.0],
     "dtc": [0x1234, 0xABCD, 0x10],
+    "lstr": ["", "AB", "xyz"],
+    "lbytes": [b"", b"\x12\xab", b"\x00"],
 }
 # expected values (XML text) per leaf type; every entry either denotes exactly one
 # alphabet value or none ("7", "EF", "ZZ", ...)
 EXPECTED = {
-    "u8": ["5", "34", "200", "7", "ZZ"],
-    "u16": ["5", "34", "4660", "7", "ZZ"],
+    "u8": ["5", "34", "200", "0", "7", "ZZ"],
+    "u16": ["5", "34", "4660", "0", "7", "ZZ"],
     "str": ["AB", "CD", "ab", "EF", "ZZ"],
     "bytes": ["12AB", "12ab", "00FF", "00ff", "3400", "ABCD", "ZZ"],
-    "f32": ["0.5", "1.5", "-2.0", "-2", "1.50", "0.75"],
+    "f32": ["0.5", "1.5", "-2.0", "-2", "1.50", "0.0", "0", "0.75"],
     "dtc": ["0x1234", "0xABCD", "0xabcd", "0x10", "0X1234", "0x77", "ZZ"],
+    "lstr": ["", "AB", "xyz", "ZZ"],
+    "lbytes": ["", "12AB", "12ab", "00", "ZZ"],
 }
 DTC_TABLE = {0x1234: "dA", 0xABCD: "dB", 0x10: "dC"}
 
@@ -79,7 +92,7 @@ def is_leaf(n):
 # expected value <-> decoded value
 # ---------------------------------------------------------------------------
 _INT = re.compile(r"-?(0|[1-9][0-9]*)\Z")
-_HEX = re.compile(r"([0-9A-Fa-f]{2})+\Z")
+_HEX = re.compile(r"([0-9A-Fa-f]{2})*\Z")
 _DTC = re.compile(r"0[xX]([1-9A-Fa-f][0-9A-Fa-f]*)\Z")
 _FLT = re.compile(r"-?[0-9]+(\.[0-9]+)?\Z")
 
@@ -88,9 +101,9 @@ def parse_expected(t: str, exp: str):
     """the value an EXPECTED-VALUE text denotes for leaf type t, or None (denotes no value)"""
     if t in ("u8", "u16"):
         return int(exp) if _INT.match(exp) else None
-    if t == "str":
+    if t in ("str", "lstr"):
         return exp
-    if t == "bytes":
+    if t in ("bytes", "lbytes"):
         return bytes.fromhex(exp) if _HEX.match(exp) else None
     if t == "f32":
         if not _FLT.match(exp):
@@ -108,7 +121,7 @@ def value_equals(t: str, exp: str, v) -> bool:
         return False
     if t == "f32":
         return v == v and want == v          # NaN never equals
-    if t == "bytes":
+    if t in ("bytes", "lbytes"):
         return bytes(v) == want
     return want == v
 
@@ -132,6 +145,11 @@ def _enc_leaf(t, v) -> bytes:
         return bytes(v)
     if t == "f32":
         return struct.pack(">f", v)
+    if t == "lstr":
+        b = v.encode("iso-8859-1")
+        return bytes([len(b)]) + b
+    if t == "lbytes":
+        return bytes([len(v)]) + bytes(v)
     raise ModelError(t)
 
 
@@ -156,6 +174,8 @@ def static_size(nodes) -> int:
         if t == "const":
             n += 1
         elif t in LEAF_SIZE:
+            if LEAF_SIZE[t] is None:
+                raise ModelError(f"{t} has no static size")
             n += LEAF_SIZE[t]
         elif t == "struct":
             n += static_size(p["ps"])
@@ -214,6 +234,15 @@ def _dec_nodes(nodes, data: bytes, pos: int, lenient: bool):
                 raise _No("const")
             res[p["n"]] = data[pos]
             pos += 1
+        elif t in ("lstr", "lbytes"):
+            if pos + 1 > len(data):
+                raise _No("short")
+            n = data[pos]
+            if pos + 1 + n > len(data):
+                raise _No("short")
+            raw = bytes(data[pos + 1:pos + 1 + n])
+            res[p["n"]] = raw.decode("iso-8859-1") if t == "lstr" else raw
+            pos += 1 + n
         elif t in LEAF_SIZE:
             sz = LEAF_SIZE[t]
             if pos + sz > len(data):
@@ -296,7 +325,7 @@ def leaf_paths(nodes, prefix=()):
     return out
 
 
-def path_matches(nodes, values, chunks, exp: str, first_item: bool = False) -> bool:
+def path_matches(nodes, values, chunks, exp: str, first_item: bool = False, falsy_absent: bool = False) -> bool:
     """does the value at the short-name path equal exp (any item for fields)?
 
     first_item=True is a deliberately different semantics (only the first item of a
@@ -316,13 +345,15 @@ def path_matches(nodes, values, chunks, exp: str, first_item: bool = False) -> b
     if t in LEAF_SIZE:
         if len(chunks) != 1:
             raise ModelError("path descends into a simple parameter")
+        if falsy_absent and not values[node["n"]]:
+            return False                   # deliberately wrong semantics, see ref_match(alt=...)
         return value_equals(t, exp, values[node["n"]])
     if len(chunks) == 1:
         raise ModelError("path ends at a complex parameter")
     if t == "struct":
-        return path_matches(node["ps"], values[node["n"]], chunks[1:], exp, first_item)
+        return path_matches(node["ps"], values[node["n"]], chunks[1:], exp, first_item, falsy_absent)
     items = values[node["n"]][:1] if first_item else values[node["n"]]
-    return any(path_matches(node["ps"], it, chunks[1:], exp, first_item) for it in items)
+    return any(path_matches(node["ps"], it, chunks[1:], exp, first_item, falsy_absent) for it in items)
 
 
 # ---------------------------------------------------------------------------
@@ -407,7 +438,8 @@ def param_matches(cfg, variant, mp, ecu, lenient=False, alt=None):
         st, vals = decode_layout(nodes, data, lenient)
         if st == "amb":
             amb = True
-        elif st == "ok" and path_matches(nodes, vals, chunks, mp["exp"], first_item=(alt == "first_item")):
+        elif st == "ok" and path_matches(nodes, vals, chunks, mp["exp"], first_item=(alt == "first_item"),
+                                          falsy_absent=(alt == "falsy_absent")):
             hit = True
     if amb:
         return "amb"
@@ -432,7 +464,7 @@ def ref_match(cfg, order, ecu, lenient=False, alt=None):
     outcome of the property is a function of the configuration and the ECU only.
 
     `alt` selects a deliberately WRONG semantics (first_item, any_param, last_match,
-    first_pattern, pos_only); the check compares it with the real one only to classify
+    first_pattern, pos_only, falsy_absent); the check compares it with the real one only to classify
     cases in which the corresponding aspect of the property is decisive."""
     amb = False
     match = None
@@ -718,6 +750,12 @@ def to_xml(cfg) -> bytes:
             variants_xml.append(f'<BASE-VARIANT ID="{vid}"><SHORT-NAME>{vid}</SHORT-NAME>{body}'
                                 f'{pats}{parent}</BASE-VARIANT>')
     dops = "".join(_dop(f"dop_{t}", *_DOPS[t]) for t in ("u8", "u16", "str", "bytes", "f32"))
+    for t, bt, pt in (("lstr", "A_ASCIISTRING", "A_UNICODE2STRING"), ("lbytes", "A_BYTEFIELD", "A_BYTEFIELD")):
+        dops += (f'<DATA-OBJECT-PROP ID="dop_{t}"><SHORT-NAME>dop_{t}</SHORT-NAME>'
+                 f'<COMPU-METHOD><CATEGORY>IDENTICAL</CATEGORY></COMPU-METHOD>'
+                 f'<DIAG-CODED-TYPE BASE-DATA-TYPE="{bt}" xsi:type="LEADING-LENGTH-INFO-TYPE">'
+                 f'<BIT-LENGTH>8</BIT-LENGTH></DIAG-CODED-TYPE>'
+                 f'<PHYSICAL-TYPE BASE-DATA-TYPE="{pt}"/></DATA-OBJECT-PROP>')
     dtcs = "".join(f'<DTC ID="dtc_{sn}"><SHORT-NAME>{sn}</SHORT-NAME><TROUBLE-CODE>{code}</TROUBLE-CODE>'
                    f'<TEXT>{sn}</TEXT></DTC>' for code, sn in DTC_TABLE.items())
     ddds = (f'<DIAG-DATA-DICTIONARY-SPEC><DTC-DOPS><DTC-DOP ID="dop_dtc"><SHORT-NAME>dop_dtc</SHORT-NAME>'
